@@ -6,6 +6,11 @@ pub mod c03;
 pub mod c04;
 pub mod c05;
 pub mod c06;
+pub mod c07;
+pub mod c08;
+pub mod c09;
+pub mod c19;
+pub mod enums_fixed;
 pub mod c10;
 pub mod c11;
 pub mod c12;
@@ -18,10 +23,14 @@ pub fn run(cfg: &Cfg, rep: &mut Report) -> bool {
         "C04" => c04::run(cfg, rep),
         "C05" => c05::run(cfg, rep),
         "C06" => c06::run(cfg, rep),
+        "C07" => c07::run(cfg, rep),
+        "C08" => c08::run(cfg, rep),
+        "C09" => c09::run(cfg, rep),
         "C10" => c10::run(cfg, rep),
         "C11" => c11::run(cfg, rep),
         "C12" => c12::run(cfg, rep),
         "C14" => c14::run(cfg, rep),
+        "C19" => c19::run(cfg, rep),
         _ => return false,
     }
     true
